@@ -155,6 +155,9 @@ func TestZZVerifC01(t *testing.T) {
 			w = gen.CatalogWeights()
 		}
 		g := gen.New(lr, w)
+		if li%2 == 0 {
+			g.CaseVariantNodes()
+		}
 		r := fsmkit.New(fsmkit.Opts{})
 		tr := trace{Dumps: map[int]*dump.Dump{}}
 		var log []entry
